@@ -758,3 +758,58 @@ where
         f(r, ctx, l, &rec)
     });
 }
+
+/// The same for the other long fields: header value, reason phrase, header name, chunk
+/// extension (and a folded value under the fold option): 17 lengths around 512 B..64 KiB, one
+/// special byte at the start / middle / one of the last 9 positions, whole or cut.
+pub fn long_field_phase<F>(r: &Runner, sub: &'static str, accept: &(dyn Fn(Entry, u8) -> bool + Sync), f: F)
+where
+    F: Fn(&Runner, &mut Ctx, &mut Local, &CaseRec) -> Result<(), Violation> + Sync,
+{
+    use crate::real::*;
+    const LENS: [usize; 17] = [511, 512, 1000, 1023, 1024, 1025, 1031, 2047, 2048, 2049, 4095, 4096, 4097, 8191, 8193, 65_535, 65_537];
+    const BAD: [u8; 7] = [b'a', 0x00, 0x7f, 0x09, 0x80, 0xff, b'\r'];
+    const NPOS: u64 = 12;
+    const NCUT: u64 = 4;
+    const NFIELD: u64 = 5;
+    let total = LENS.len() as u64 * BAD.len() as u64 * NPOS * NCUT * NFIELD;
+    r.par_enum("long header value / reason / header name / chunk extension / folded value: 17 lengths around 512 B..64 KiB × 7 byte kinds at 12 positions (start, middle, last 9) × 4 cuts (whole, end of field, after its line end, before the last byte)", total, |ctx, l, idx| {
+        let mut x = idx;
+        let cut = x % NCUT;
+        x /= NCUT;
+        let pk = (x % NPOS) as usize;
+        x /= NPOS;
+        let bad = BAD[(x % BAD.len() as u64) as usize];
+        x /= BAD.len() as u64;
+        let field = x % NFIELD;
+        let len = LENS[(x / NFIELD) as usize];
+        let mut t: Vec<u8> = (0..len).map(|i| b'a' + (i % 26) as u8).collect();
+        let pos = match pk {
+            0 => 0,
+            1 => len / 2,
+            2 => len / 2 + 3,
+            k => len - (k - 2),
+        };
+        t[pos] = bad;
+        let (entry, cfg, pre, post): (Entry, u8, &[u8], &[u8]) = match field {
+            0 => (Entry::Headers, 0, b"Name: ", b"\r\nB: c\r\n\r\n"),
+            1 => (Entry::RespParse, 0, b"HTTP/1.1 200 ", b"\r\nB: c\r\n\r\n"),
+            2 => (Entry::Headers, 0, b"", b": v\r\nB: c\r\n\r\n"),
+            3 => (Entry::Chunk, 0, b"1f;", b"\r\nrest"),
+            _ => (Entry::RespCfg, C_MULTILINE, b"HTTP/1.1 200 OK\r\nName: v\r\n ", b"\r\nB: c\r\n\r\n"),
+        };
+        if !accept(entry, cfg) {
+            return Ok(());
+        }
+        let full: Vec<u8> = [pre, &t, post].concat();
+        let fe = pre.len() + t.len();
+        let n = match cut {
+            0 => full.len(),
+            1 => fe,
+            2 => fe + 2,
+            _ => full.len() - 1,
+        };
+        let rec = CaseRec::new(sub, entry, cfg, 8, full[..n].to_vec());
+        f(r, ctx, l, &rec)
+    });
+}
